@@ -109,6 +109,7 @@ def strategy_(draw, tier):
     for b, _so in spec.get("alloc", []):
         pts += [b * unit, (b + 1) * unit]
     spec["requests"] = draw(strat.requests(spec["size"], unit, count=6, points=pts[:64], whole_limit=4 << 20))
+    spec["via_minimal"] = draw(strat.minimal_handle())
     spec["sector_requests"] = [[o // 512, max(1, min(n, 1 << 20) // 512)] for o, n in spec["requests"][:2]]
     return spec
 
@@ -159,6 +160,9 @@ def check(spec) -> Outcome:
     if v.size != spec["size"]:
         out.fail(f"mismatch|{tag}-size", f"size {v.size} != {spec['size']}")
     check_reads(out, v, lay, spec["requests"], tag)
+    from hv.core import also_minimal
+
+    also_minimal(out, spec, fh, VHD, lay, spec["requests"], tag)
     for s, c in spec.get("sector_requests", []):
         c = min(c, spec["size"] // 512 - s)
         if c <= 0:
